@@ -19,8 +19,14 @@ for d in sorted(glob.glob("/verif/seeded/C??-*")):
         "files_changed": files,
         "what_it_needs_to_manifest": (open(d + "/demo.md").read()[:2000] if os.path.exists(d + "/demo.md") else ""),
         "demonstration": [f for f in ("demo.md", "demo_test.rs") if os.path.exists(os.path.join(d, f))],
-        "repository_tests_with_patch": (open(d + "/tests.txt").read().strip() if os.path.exists(d + "/tests.txt") else "not run"),
+        "repository_tests_with_patch": (open(d + "/tests.txt").read().strip() if os.path.exists(d + "/tests.txt")
+                                        else ([l.split(":", 1)[1].strip() for l in open(d + "/verify.txt") if l.startswith("suite with patch")] or ["not run"])[0]
+                                        if os.path.exists(d + "/verify.txt") else "not run"),
+        "demonstration_confirmed": ([l.strip() for l in open(d + "/verify.txt") if l.startswith("demo ") or l.startswith("head:")]
+                                    if os.path.exists(d + "/verify.txt") else []),
+        "rebased": sorted(os.path.basename(f) for f in glob.glob(d + "/patch.orig-*.diff")),
         "checks_run": results,
+        "how_confirmed": "bin/seedverify2.sh <seed> (scratch worktree /tmp/seedverify of /repo's HEAD: git apply; cargo test --offline; demo test appended to the test module it names: fails with the patch, passes after git apply -R); removed afterwards",
         "how_run": "bin/seedtest.sh %s/patch.diff <property>  (git -C /repo apply; bin/check <property> --tier quick; git -C /repo checkout -- .); '.rerun' = after the check was strengthened" % d,
     }
     json.dump(meta, open(d + "/meta.json", "w"), indent=1)
